@@ -82,7 +82,7 @@ DynArray *vm_dir_list(const char *path) {
     while ((entry = readdir(d)) != NULL) {
         if (strcmp(entry->d_name, ".") == 0 || strcmp(entry->d_name, "..") == 0)
             continue;
-        dyn_array_push_string(arr, entry->d_name);
+        dyn_array_push_string_copy(arr, entry->d_name);  /* d_name dies with closedir() */
     }
     closedir(d);
     return arr;
